@@ -27,6 +27,13 @@ def tasks(tier, seed):
             for m in ms:
                 out.append(stv.mk_task(rule, m, o, sup, C.K3, ("c07",), nmax=6 if q else 9, W=W, weight=len(sup),
                                        xval_stride=4 if q else 10))
+    # four candidates, three seats: two coalitions {A,C}, {B,D} whose leaders can reach quota together
+    pair_fam = F.fam("A>C", "B>D", "C>A", "D>B")
+    for (rule, o) in (sl[0], sl[2]) if q else sl[:4]:
+        W = 2 if o.get("transfer") == "random" else None
+        for sup in supports_of([pair_fam], sizes=(4,) if q else (3, 4)):
+            for m in ((3,) if q else (2, 3)):
+                out.append(stv.mk_task(rule, m, o, sup, C.K4, ("c07",), nmax=8 if W is None else 6, W=W, weight=12, xval_stride=6, split=4))
     if not q:
         for (rule, o) in sl[:4]:
             W = 2 if o.get("transfer") == "random" else None
